@@ -52,7 +52,7 @@ VARS = {"threshold": 100, "tagname": "UBER"}
 LITS = ['"NETFLIX"', '"netflix"', '"UBER"', '""', '"X"']
 STR0 = ["description", "field.memo", "source", "tagname"] + LITS
 NUM0 = ["amount", "0", "2", "100", "99.75", "month", "threshold"]
-PATS = ['"NETFLIX"', '"UBER\\\\s(?!EATS)"', '"^AMAZON"', '"A|B"', '"\\\\d{3}"']
+PATS = ['"NETFLIX"', '"UBER\\\\s(?!EATS)"', '"^AMAZON"', '"A|B"', '"\\\\d{3}"', '"\\\\D{3}"', '"uber\\\\S"']
 
 
 def str1():
@@ -117,7 +117,7 @@ def bool1():
 
 BASIS = ['contains("NETFLIX")', 'contains("uber")', "amount > 99.75", "amount <= 100", "amount < 0", "month == 1", "month >= 12", 'date >= "2025-01-01"',
          'date < "2025-02-01"', 'field.type == "WIRE"', 'source == "amex"', '"EATS" in description', 'regex("^AMAZON")', 'regex("\\\\d{3}")',
-         'normalized("OREILLYAUTO")', 'startswith("UBER")', 'exists(field.memo)', "true", "false", "weekday >= 5", 'description == ""', "amount == 0",
+         'regex("\\\\D{3}")', 'extract("(\\\\D+)") == "77"', 'normalized("OREILLYAUTO")', 'startswith("UBER")', 'exists(field.memo)', "true", "false", "weekday >= 5", 'description == ""', "amount == 0",
          'anyof("GAS", "PEN")', "year == 2025", 'extract("(\\\\d+)") == "77"', "len(description) > 9", "any(r.amount == amount for r in orders)",
          'field.memo == "x"']
 
@@ -154,7 +154,9 @@ def rows_exprs():
             "(n := len(orders)) and n + n", 'any(r.item == "lamp" for r in items)', 'next((r.item for r in items), "none")',
             'next((r.item for r in items if r.amount == amount), "none")', "all(r.amount > 100 for r in items)", 'any(r.item == "rug" and r.amount == amount for r in items)',
             "any((seen := r.amount) > 20 for r in orders) and seen == 99.75", "next(((hit := r.item) for r in orders if r.amount == amount), \"\") == hit or amount != 99.75",
-            "all((last := r.amount) < 50 for r in orders) or last == 99.75", "len([r for r in items]) == 3", "sum(r.amount for r in items)", "(first := orders[0]) and first.item", "[x.upper() for x in [r.item for r in orders]]"]
+            "all((last := r.amount) < 50 for r in orders) or last == 99.75",
+            "len([(last := r.amount) for r in orders]) == 3 and last == 100.0", "[r.item for r in orders if (seen := r.amount) > 50] and seen == 100.0",
+            "(total := 0) == 0 and len([(total := total + r.amount) for r in orders]) == 3 and total == 200.0", "len([r for r in items]) == 3", "sum(r.amount for r in items)", "(first := orders[0]) and first.item", "[x.upper() for x in [r.item for r in orders]]"]
     return out
 
 
@@ -237,6 +239,11 @@ def gen_law_cases(tier):
         yield {"law": "pair", "a": a, "b": b}
     nums = ["amount", "0", "99.75", "100", "100.25", "month"]
     yield {"law": "chains", "nums": nums}
+    # un-parenthesised  a and b or c  through the rule engine (quick: a over the description-matching basis elements)
+    firsts = [i for i, e in enumerate(BASIS) if e.startswith(("contains(", "regex(", "startswith(", "normalized(", "anyof("))]
+    for a in (firsts if tier == "quick" else range(len(BASIS))):
+        for b in range(len(BASIS)):
+            yield {"law": "engine-mix", "a": a, "b": b}
     yield {"law": "shortcircuit"}
 
 
@@ -315,7 +322,8 @@ def check_ref(case):
                 outcomes.add("MISMATCH")
                 if len(viol) < 25:
                     viol.append({"kind": "differs-from-reference", "detail": {"expression": e, "txn": ti, "transaction": t, "reference": rv, "real": (gk, gv)},
-                                 "case": {"kind": "ref", "exprs": [e]}})
+                                 # the replay re-evaluates the whole chunk in order (results must not, but might, depend on what was evaluated before)
+                                 "case": {"kind": "ref", "exprs": case["exprs"]}})
             else:
                 outcomes.add("agree:" + rv[0])
     return {"evals": evals, "nontrivial": nontrivial, "outcomes": sorted(outcomes), "violations": viol,
@@ -386,6 +394,24 @@ def check_law(case):
                 r = eng.match(txn_for_real(t), data_sources=copy.deepcopy(ORDERS))
                 if ea[0] == "ok" and r.matched != bool(ea[1][1]):
                     viol.append({"kind": "entry-points-disagree", "detail": {"expression": e, "txn": ti, "evaluate_transaction": ea, "engine_matched": r.matched}, "case": case})
+    elif case["law"] == "engine-mix":
+        from tally.merchant_engine import parse_merchants
+        import copy
+        a, b = BASIS[case["a"]], BASIS[case["b"]]
+        for c in BASIS:
+            for e in (f"{a} and {b} or {c}", f"{a} or {b} and {c}"):
+                eng = parse_merchants(f"threshold = 100\ntagname = \"UBER\"\n[R]\nmatch: {e}\ncategory: C\n")
+                for ti, t in enumerate(TXNS):
+                    evals += 1
+                    ev = real_eval(e, t)
+                    if ev[0] != "ok":
+                        continue
+                    nontrivial += 1
+                    r = eng.match(txn_for_real(t), data_sources=copy.deepcopy(ORDERS))
+                    if r.matched != bool(ev[1][1]):
+                        viol.append({"kind": "entry-points-disagree", "detail": {"expression": e, "txn": ti, "evaluate_transaction": ev, "engine_matched": r.matched}, "case": case})
+                    else:
+                        outcomes.add("engine-agrees")
     elif case["law"] == "chains":
         nums = case["nums"]
         for a, b, c in itertools.product(nums, repeat=3):
